@@ -52,11 +52,16 @@ package kube
 //@   modifies Aapplied
 //@   ensures Aapplied == store(old(Aapplied), info, true)
 
+// Apatched: the resource infos for which a patch of a live object was issued (C07: a live object that
+// the previous manifest of the release does not list is never patched — the update refuses instead)
+//@ ghost var Apatched set[ref]
+
 //@ func updateResource
 //@   props C02
 //@   trusted
-//@   modifies Aapplied
+//@   modifies Aapplied, Apatched
 //@   ensures Aapplied == store(old(Aapplied), target, true)
+//@   ensures Apatched == store(old(Apatched), target, true)
 
 //@ func deleteResource
 //@   props C02
@@ -74,12 +79,13 @@ package kube
 //@   ensures [nothing-touched] Aapplied == old(Aapplied) && Adeleted == old(Adeleted)
 
 //@ func (*Client).update$1
-//@   props C02
+//@   props C02 C07
 //@   requires info != nil && info.Mapping != nil && infosOK(original) && res != nil
 //@   ensures [error-passthrough] err != nil ==> result == err && Aapplied == old(Aapplied)
 //@   ensures [applies-only-this-resource] Aapplied == old(Aapplied) || Aapplied == store(old(Aapplied), info, true)
 //@   ensures [success-means-applied-or-update-error-recorded] result == nil ==> Aapplied[info]
 //@   ensures [never-deletes] Adeleted == old(Adeleted)
+//@   ensures [patches-only-objects-of-the-previous-manifest] [C07] Apatched == old(Apatched) || (Apatched == store(old(Apatched), info, true) && containsObject(original, info))
 
 //@ ghost func liveKeep(x *resource.Info) bool = accessible(liveObjectOf(x)) && objAnnos[liveObjectOf(x)] != nil && has(objAnnos[liveObjectOf(x)], ResourcePolicyAnno) && objAnnos[liveObjectOf(x)][ResourcePolicyAnno] == KeepPolicy
 
